@@ -130,10 +130,10 @@ package net
 //@   monitor forall i int {e.handlers[i]} :: 0 <= i && i < len(e.handlers) && e.handlers[i] != nil ==> allocated(e.handlers[i]) && allocated(e.handlers[i].consumer) && e.handlers[i].hclosed == 0 && e.handlers[i].consumer != nil && !e.handlers[i].consumer.chclosed && e.handlers[i].consumer.chowned && e.handlers[i].hslot == i && e.handlers[i].consumer.chslot == i
 
 //@ func (h *Handler) closeWith(err error)
-//@   tags C17
+//@   tags C17 C11
 //@   requires h.hclosed == 0 && !h.consumer.chclosed && h.consumer != nil
 //@   modifies h.hclosed, h.consumer.chclosed
-//@   ensures[C17] h.hclosed == 1 && h.consumer.chclosed
+//@   ensures[C17,C11] h.hclosed == 1 && h.consumer.chclosed
 //@   ghost_at_return h.hclosed := old(h.hclosed) + 1
 //@   opt spawn_effects yes
 
